@@ -400,9 +400,9 @@ def ElemOk (ah : Bool) (n : Nat) : Prop := n < 2 ^ 32 ∧ (n ≥ HARDENED → ah
 def StepOk (ah : Bool) : Step → Prop
   | .wild => True
   | .idx n => ElemOk ah n
-  | .set l => l ≠ [] ∧ ∀ x ∈ l, ∃ n, x = some n ∧ ElemOk ah n
+  | .set l => l ≠ [] ∧ ∀ x ∈ l, x = none ∨ ∃ n, x = some n ∧ ElemOk ah n
 
-theorem showSetElems_ok (ah : Bool) : ∀ (l : List (Option Nat)), (∀ x ∈ l, ∃ n, x = some n ∧ ElemOk ah n) →
+theorem showSetElems_ok (ah : Bool) : ∀ (l : List (Option Nat)), (∀ x ∈ l, x = none ∨ ∃ n, x = some n ∧ ElemOk ah n) →
     ∃ es, showSetElems l = some es ∧ es.length = l.length ∧ mapOpt (parseSetElem ah) es = some l ∧
       (∀ e ∈ es, e ≠ [] ∧ ∀ c ∈ e, plainChar c = true) := by
   intro l
@@ -410,15 +410,23 @@ theorem showSetElems_ok (ah : Bool) : ∀ (l : List (Option Nat)), (∀ x ∈ l,
   | nil => intro _; exact ⟨[], rfl, rfl, rfl, fun e he => by cases he⟩
   | cons x r ih =>
     intro h
-    obtain ⟨n, hx, hn⟩ := h x List.mem_cons_self
-    subst hx
     obtain ⟨es, h1, h2, h3, h4⟩ := ih (fun y hy => h y (List.mem_cons_of_mem _ hy))
-    refine ⟨showIndex n :: es, by simp [showSetElems, h1], by simp [h2], ?_, ?_⟩
-    · simp [mapOpt, parseSetElem_showIndex ah n hn.1 hn.2, h3]
-    · intro e he
-      cases he with
-      | head => exact ⟨showIndex_ne_nil n, showIndex_plain n⟩
-      | tail _ hm => exact h4 e hm
+    rcases h x List.mem_cons_self with hx | ⟨n, hx, hn⟩
+    · -- a wildcard inside the set: printed `*`, read back as `None`
+      subst hx
+      refine ⟨['*'] :: es, by simp [showSetElems, h1], by simp [h2], ?_, ?_⟩
+      · simp [mapOpt, parseSetElem, h3]
+      · intro e he
+        cases he with
+        | head => exact ⟨by simp, by intro c hc; simp at hc; subst hc; decide⟩
+        | tail _ hm => exact h4 e hm
+    · subst hx
+      refine ⟨showIndex n :: es, by simp [showSetElems, h1], by simp [h2], ?_, ?_⟩
+      · simp [mapOpt, parseSetElem_showIndex ah n hn.1 hn.2, h3]
+      · intro e he
+        cases he with
+        | head => exact ⟨showIndex_ne_nil n, showIndex_plain n⟩
+        | tail _ hm => exact h4 e hm
 
 theorem joinWith_chars (sep : Char) (P : Char → Prop) : ∀ (parts : List Str),
     (∀ p ∈ parts, ∀ c ∈ p, P c) → P sep → ∀ c ∈ joinWith sep parts, P c := by
@@ -789,8 +797,9 @@ theorem showIndex_last (n : Nat) : ∃ l, (showIndex n).getLast? = some l ∧ l 
   · obtain ⟨l, hl, hlc⟩ := showNat_last n
     exact ⟨l, hl, (digit_not_marker l hlc).2.2.2.2.2.2.2.2.1⟩
 
-/-- a normal origin: 4-byte fingerprint, non-negative path elements -/
-def OriginOk (o : Origin) : Prop := o.fingerprint.length = 4 ∧ ∀ e ∈ o.path, 0 ≤ e
+/-- a normal origin: 4-byte fingerprint; the path elements are arbitrary integers, as `int()` produces them
+    (C12 deepening: the non-negativity demanded here earlier was not needed: an origin element `-1` prints and parses back) -/
+def OriginOk (o : Origin) : Prop := o.fingerprint.length = 4
 
 theorem path_nat (p : List Int) (h : ∀ e ∈ p, 0 ≤ e) : ∃ ns : List Nat, p = ns.map Int.ofNat := by
   induction p with
@@ -907,13 +916,158 @@ theorem parsePathM_texts (ns : List Nat) : parsePathM (ns.map showIndex) = some 
   simp only [if_true]
   exact mapOpt_parseDerItem ns
 
-theorem parseOrigin_showOrigin (o : Origin) (hok : OriginOk o) : parseOrigin (showOrigin o) = some o := by
+/-! origin path elements as `int()` produces them: any integer (negative ones included) -/
+
+theorem pyInt_showInt (e : Int) : pyInt (showInt e) = some e := by
+  cases e with
+  | ofNat n => exact pyInt_showNat n
+  | negSucc n =>
+    have hd := showNat_digits (n + 1)
+    have hne := showNat_ne_nil (n + 1)
+    show pyInt ('-' :: showNat (n + 1)) = _
+    unfold pyInt
+    have h1 : lstripWs ('-' :: showNat (n + 1)) = '-' :: showNat (n + 1) := lstripWs_of_head _ _ (by decide)
+    have h2 : rstripWs ('-' :: showNat (n + 1)) = '-' :: showNat (n + 1) := by
+      have hsp : isPySpace '-' = false := by decide
+      have e : rstripWs ('-' :: showNat (n + 1)) = (if (rstripWs (showNat (n + 1))).isEmpty && isPySpace '-' then []
+          else '-' :: rstripWs (showNat (n + 1))) := rfl
+      rw [e, rstripWs_digits _ hd, hsp]
+      simp
+    rw [h1, h2]
+    simp only
+    rw [pyDigits_plain _ 0 false hd (Or.inl hne), digitsVal_showNat]
+    rfl
+
+def intChar (c : Char) : Bool := (digitVal c).isSome || c == '-'
+
+theorem showInt_chars (e : Int) : ∀ c ∈ showInt e, intChar c = true := by
+  intro c hc
+  cases e with
+  | ofNat n => simp [intChar, showNat_digits n c hc]
+  | negSucc n =>
+    have : c = '-' ∨ c ∈ showNat (n + 1) := by simpa [showInt] using hc
+    rcases this with rfl | h
+    · decide
+    · simp [intChar, showNat_digits _ c h]
+
+theorem showInt_ne_nil (e : Int) : showInt e ≠ [] := by
+  cases e with
+  | ofNat n => exact showNat_ne_nil n
+  | negSucc n => simp [showInt]
+
+theorem showInt_last (e : Int) : ∃ c, (showInt e).getLast? = some c ∧ (digitVal c).isSome = true := by
+  cases e with
+  | ofNat n => exact showNat_last n
+  | negSucc n =>
+    obtain ⟨c, hc, hd⟩ := showNat_last (n + 1)
+    refine ⟨c, ?_, hd⟩
+    show ('-' :: showNat (n + 1)).getLast? = some c
+    cases hs : showNat (n + 1) with
+    | nil => exact absurd hs (showNat_ne_nil _)
+    | cons a r => rw [hs] at hc; rw [List.getLast?_cons_cons]; exact hc
+
+/-- the characters of an origin path element: digits, `-`, `h` -/
+def originChar (c : Char) : Bool := intChar c || c == 'h'
+
+theorem originChar_not (c : Char) (h : originChar c = true) : c ≠ '/' ∧ c ≠ ']' := by
+  simp only [originChar, intChar, Bool.or_eq_true, beq_iff_eq] at h
+  rcases h with (h | h) | h
+  · have := digit_not_marker c h
+    exact ⟨this.2.2.2.2.2.2.2.2.1, this.2.2.2.2.2.2.2.2.2.2.2.2.1⟩
+  · subst h; decide
+  · subst h; decide
+
+theorem showOriginElem_chars (e : Int) : ∀ c ∈ showOriginElem e, originChar c = true := by
+  intro c hc
+  unfold showOriginElem at hc
+  split at hc
+  · simp only [List.mem_append, List.mem_singleton] at hc
+    rcases hc with h | h
+    · simp [originChar, showInt_chars _ c h]
+    · subst h; decide
+  · simp [originChar, showInt_chars _ c hc]
+
+theorem showOriginElem_ne_nil (e : Int) : showOriginElem e ≠ [] := by
+  unfold showOriginElem
+  split
+  · simp
+  · exact showInt_ne_nil e
+
+theorem parseDerItem_showOriginElem (e : Int) : parseDerItem (showOriginElem e) = some e := by
+  unfold showOriginElem parseDerItem
+  by_cases h : e ≥ (HARDENED : Int)
+  · simp only [h, if_true]
+    have hl : (showInt (e - (HARDENED : Int)) ++ ['h']).getLast? = some 'h' := by simp
+    simp only [hl, List.dropLast_concat, pyInt_showInt, Option.map_some, beq_self_eq_true, Bool.true_or,
+      Bool.or_true, if_true]
+    simp
+  · simp only [h, if_false]
+    obtain ⟨l, hl, hlc⟩ := showInt_last e
+    have hm := digit_not_marker l hlc
+    simp only [hl]
+    simp [hm.2.2.2.2.2.1, hm.2.2.2.2.2.2.1, hm.2.2.2.2.2.2.2.1, pyInt_showInt]
+
+theorem showOrigin_eqI (fp : Bytes) (p : List Int) :
+    showOrigin ⟨fp, p⟩ = joinWith '/' (hexlify fp :: p.map showOriginElem) := by
+  unfold showOrigin
+  have : (p.flatMap fun a => '/' :: showOriginElem a) = (p.map showOriginElem).flatMap (fun t => '/' :: t) := by
+    rw [List.flatMap_map]
+  simp only [this]
+  cases hn : p.map showOriginElem with
+  | nil => simp [joinWith]
+  | cons t r =>
+    rw [flatMap_slash (t :: r) (by simp), joinWith_cons_cons]
+
+theorem mapOpt_parseDerItemI (p : List Int) : mapOpt parseDerItem (p.map showOriginElem) = some p := by
+  induction p with
+  | nil => rfl
+  | cons n r ih => simp [mapOpt, parseDerItem_showOriginElem, ih]
+
+theorem showOriginElem_no_slash (e : Int) : ∀ x ∈ showOriginElem e, x ≠ '/' :=
+  fun x hx => (originChar_not x (showOriginElem_chars e x hx)).1
+
+theorem parsePathM_textsI (p : List Int) : parsePathM (p.map showOriginElem) = some p := by
+  have hm : ∀ q ∈ ['m'] :: p.map showOriginElem, ∀ x ∈ q, x ≠ '/' := by
+    intro q hq x hx
+    rw [List.mem_cons] at hq
+    cases hq with
+    | inl h =>
+      subst h
+      rw [List.mem_singleton] at hx
+      subst hx
+      decide
+    | inr h =>
+      rw [List.mem_map] at h
+      obtain ⟨n, _, rfl⟩ := h
+      exact showOriginElem_no_slash n x hx
+  have hnn : ∀ q ∈ ['m'] :: p.map showOriginElem, q ≠ [] := by
+    intro q hq
+    rw [List.mem_cons] at hq
+    cases hq with
+    | inl h => subst h; exact List.cons_ne_nil _ _
+    | inr h =>
+      rw [List.mem_map] at h
+      obtain ⟨n, _, rfl⟩ := h
+      exact showOriginElem_ne_nil n
+  have hlast : (joinWith '/' (['m'] :: p.map showOriginElem)).getLast? ≠ some '/' := by
+    cases hl : (['m'] :: p.map showOriginElem).getLast? with
+    | none => simp at hl
+    | some last =>
+      rw [joinWith_last '/' _ last hl hnn]
+      have hmem : last ∈ ['m'] :: p.map showOriginElem := List.mem_of_getLast? hl
+      intro hc
+      exact hm last hmem '/' (List.mem_of_getLast? hc) rfl
+  unfold parsePathM
+  simp only []
+  rw [rstripC_of_last '/' _ hlast, splitOn_joinWith '/' _ (by simp) hm]
+  simp only [if_true]
+  exact mapOpt_parseDerItemI p
+
+theorem parseOrigin_showOriginI (o : Origin) (hfp : o.fingerprint.length = 4) : parseOrigin (showOrigin o) = some o := by
   obtain ⟨fp, path⟩ := o
-  obtain ⟨hfp, hpath⟩ := hok
-  obtain ⟨ns, rfl⟩ := path_nat path hpath
-  rw [showOrigin_eq]
+  rw [showOrigin_eqI]
   unfold parseOrigin
-  have hparts : ∀ p ∈ hexlify fp :: ns.map showIndex, ∀ x ∈ p, x ≠ '/' := by
+  have hparts : ∀ p ∈ hexlify fp :: path.map showOriginElem, ∀ x ∈ p, x ≠ '/' := by
     intro p hp x hx
     rw [List.mem_cons] at hp
     cases hp with
@@ -921,10 +1075,13 @@ theorem parseOrigin_showOrigin (o : Origin) (hok : OriginOk o) : parseOrigin (sh
     | inr h =>
       rw [List.mem_map] at h
       obtain ⟨n, _, rfl⟩ := h
-      exact showIndex_no_slash n x hx
+      exact showOriginElem_no_slash n x hx
   rw [splitOn_joinWith '/' _ (by simp) hparts]
   have hfp' : fp.length = 4 := hfp
-  simp only [unhexlify_hexlify, hfp', ne_eq, not_true_eq_false, if_false, parsePathM_texts, Option.map_some]
+  simp only [unhexlify_hexlify, hfp', ne_eq, not_true_eq_false, if_false, parsePathM_textsI, Option.map_some]
+
+theorem parseOrigin_showOrigin (o : Origin) (hok : OriginOk o) : parseOrigin (showOrigin o) = some o :=
+  parseOrigin_showOriginI o hok
 
 variable {K : Type}
 
@@ -938,11 +1095,12 @@ def keyText (ops : KeyOps K) (k : KeyExpr K) : Option Str :=
     | _ => ops.text key
 
 /-- a key expression the parser can have produced and the printer prints back to it (`tap`: taproot context,
-    `hash`: argument of pk_h / pkh) -/
+    `hash`: argument of pk_h / pkh). The key text must not start with `[` when there is no origin in front of it
+    (C12 deepening: behind an origin it may — a 40-character raw key hash is taken verbatim) -/
 structure KeyNormal (ops : KeyOps K) (tap hash : Bool) (k : KeyExpr K) : Prop where
   origin_ok : ∀ o, k.origin = some o → OriginOk o
   /-- the key's text is free of the delimiters and is decoded to the key again (C10/C11: the codecs invert) -/
-  text : ∃ kt, keyText ops k = some kt ∧ kt.head? ≠ some '[' ∧ kt ≠ [] ∧
+  text : ∃ kt, keyText ops k = some kt ∧ (k.origin = none → kt.head? ≠ some '[') ∧ kt ≠ [] ∧
     (∀ x ∈ kt, x ≠ ',' ∧ x ≠ ')' ∧ x ≠ '/') ∧
     (if hash then parseKeyHashText ops tap kt else parseKeyText ops tap kt) = some (k.key, k.xonlyRepr)
   xonly_tap : k.xonlyRepr = true → tap = true
@@ -974,11 +1132,9 @@ theorem showKey_eq (ops : KeyOps K) (k : KeyExpr K) (kt : Str) (hkt : keyText op
     | (simp [hkt]; done)
     | (simp only [hkt]; cases showSteps _ <;> simp; done)
 
-theorem showOrigin_no_close (o : Origin) (hok : OriginOk o) : ∀ x ∈ showOrigin o, x ≠ ']' := by
+theorem showOrigin_no_closeI (o : Origin) : ∀ x ∈ showOrigin o, x ≠ ']' := by
   obtain ⟨fp, path⟩ := o
-  obtain ⟨_, hpath⟩ := hok
-  obtain ⟨ns, rfl⟩ := path_nat path hpath
-  rw [showOrigin_eq]
+  rw [showOrigin_eqI]
   apply joinWith_chars '/' (· ≠ ']')
   · intro p hp c hc
     rw [List.mem_cons] at hp
@@ -987,9 +1143,11 @@ theorem showOrigin_no_close (o : Origin) (hok : OriginOk o) : ∀ x ∈ showOrig
     | inr h =>
       rw [List.mem_map] at h
       obtain ⟨n, _, rfl⟩ := h
-      have := showIndex_plain n c hc
-      intro he; subst he; revert this; decide
+      exact (originChar_not c (showOriginElem_chars n c hc)).2
   · decide
+
+theorem showOrigin_no_close (o : Origin) (hok : OriginOk o) : ∀ x ∈ showOrigin o, x ≠ ']' :=
+  showOrigin_no_closeI o
 
 theorem KeyExpr.eta (k : KeyExpr K) (o : Option Origin) (d : Option (List Step)) (ho : k.origin = o)
     (hd : k.deriv = d) : (⟨o, k.key, d, k.xonlyRepr⟩ : KeyExpr K) = k := by
@@ -1032,7 +1190,7 @@ theorem readKey_showKey (ops : KeyOps K) (tap hash : Bool) (k : KeyExpr K) (hn :
       | nil => exact absurd rfl hne
       | cons x xs => exact ⟨x, xs, rfl⟩
     have hx0 : x ≠ '[' := by
-      intro he; subst he; exact hhead rfl
+      intro he; subst he; exact hhead ho rfl
     have hread : (Stream.read1 ⟨b, (x :: xs) ++ suf ++ c :: r⟩) = (some x, ⟨x :: b, xs ++ suf ++ c :: r⟩) := rfl
     simp only [hread, Option.some.injEq, hx0, if_false, Stream.unread, Option.map_some]
     have e : (x :: (xs ++ suf ++ c :: r)) = (x :: xs) ++ suf ++ c :: r := by simp
